@@ -86,6 +86,15 @@ func (d *Dialer) Dial(ctx context.Context, endpoint string) (*Conn, error) {
 
 	}
 
+	// The dial timeout covers the TCP connect and the HEL/ACK handshake:
+	// a peer that accepts the TCP connection but never answers the HEL
+	// must not block the caller forever.
+	if dl.Timeout > 0 {
+		var cancel context.CancelFunc
+		ctx, cancel = context.WithTimeout(ctx, dl.Timeout)
+		defer cancel()
+	}
+
 	c, err := dl.DialContext(ctx, "tcp", raddr.Host)
 	if err != nil {
 		return nil, err
@@ -97,8 +106,20 @@ func (d *Dialer) Dial(ctx context.Context, endpoint string) (*Conn, error) {
 		return nil, err
 	}
 
+	// Handshake blocks in a read which only honors the deadline of ctx.
+	// Interrupt it when ctx is cancelled.
+	stop := context.AfterFunc(ctx, func() {
+		conn.SetDeadline(time.Unix(1, 0))
+	})
+
 	debug.Printf("uacp %d: start HEL/ACK handshake", conn.id)
-	if err := conn.Handshake(ctx, endpoint); err != nil {
+	err = conn.Handshake(ctx, endpoint)
+	if !stop() && err == nil {
+		// ctx ended while the handshake completed and
+		// the connection has an expired deadline.
+		err = ctx.Err()
+	}
+	if err != nil {
 		debug.Printf("uacp %d: HEL/ACK handshake failed: %s", conn.id, err)
 		conn.Close()
 		return nil, err
